@@ -62,12 +62,18 @@ def record_family(ctx: Ctx, name, make) -> dict:
     algo, env, mkpol, total = make()
     runs, params = [], []
     bits_ids = {}
-    for ki, kseed in enumerate((11, 23)):
-        for oi, (oname, mkobs) in enumerate(observer_sets(ctx)):
-            for rep in range(2 if oi in (0, 2) else 1):
+    import jax.numpy as jnp
+    # keys 1, 2: integer seeds.  keys 3..6: raw key data that differ in ONE 32-bit word only (high word, low word) - keys as
+    # jr.split / fold_in produce them; run without observers, once each
+    raw = lambda hi, lo: jr.wrap_key_data(jnp.asarray([hi, lo], dtype=jnp.uint32))
+    keyset = [jr.key(11), jr.key(23), raw(1, 7), raw(2, 7), raw(9, 1), raw(9, 2)]
+    obs_sets = observer_sets(ctx)
+    for ki, run_key in enumerate(keyset):
+        for oi, (oname, mkobs) in enumerate(obs_sets if ki < 2 else obs_sets[:1]):
+            for rep in range((2 if oi in (0, 2) else 1) if ki < 2 else 1):
                 policy = mkpol(jr.key(5))
                 before = b"".join(x.tobytes() for x in leaves(policy))
-                trained = algo.learn(env, policy, total, key=jr.key(kseed), callback=mkobs(total))
+                trained = algo.learn(env, policy, total, key=run_key, callback=mkobs(total))
                 jax.effects_barrier()
                 after = b"".join(x.tobytes() for x in leaves(policy))
                 lv = leaves(trained)
